@@ -30,6 +30,11 @@ func c16Containers() []model.Value {
 		model.Hash(he(model.Float(0.1), model.Int(1)), he(model.Float(0.2), model.Int(2)), he(model.Float(0.3), model.Int(3)), he(model.Float(-0.5), model.Int(4))),
 		model.Hash(he(model.Int(256), model.Str("i")), he(model.Int(512), model.Str("j")), he(model.Int(65536), model.Str("k")), he(model.Int(4294967296), model.Str("l")), he(model.Int(-256), model.Str("m"))),
 		model.Hash(he(model.Str("ab"), model.Int(1)), he(model.Str("ba"), model.Int(2)), he(model.Str("a"), model.Int(3)), he(model.Str("b"), model.Int(4)), he(model.Str(""), model.Int(5))),
+		// entries and elements that are null, false, zero and empty are entries and elements all the same
+		model.Arr(model.Null(), model.Int(1), model.Null()), model.Arr(model.Null()), model.Arr(model.Bool(false), model.Int(0), model.Str(""), model.Null(), model.Arr(), model.Hash()),
+		model.Hash(he(model.Str("a"), model.Int(1)), he(model.Str("b"), model.Null()), he(model.Str("c"), model.Int(3))), model.Hash(he(model.Int(7), model.Null())),
+		model.Hash(he(model.Str("x"), model.Null()), he(model.Str("y"), model.Null())),
+		model.Hash(he(model.Str("f"), model.Bool(false)), he(model.Str("z"), model.Int(0)), he(model.Str("e"), model.Str("")), he(model.Str("n"), model.Null()), he(model.Str("ea"), model.Arr()), he(model.Str("eh"), model.Hash())),
 	}
 }
 
